@@ -28,7 +28,7 @@ EXTRA_STUBS = dyn.EXTRA_STUBS
 REQUIRED_WITNESSES = ['success_exploit', 'success_privesc', 'success_subnet_scan', 'failure']
 STUBS, ASSUMPTIONS = common.STUBS, common.ASSUMPTIONS + ["actions are those of the scenario's action spaces (req_access = USER, as both decoders construct them)"]
 BOUNDS = dict(quick="shapes [1,1],[2,1]; S=2,O=2,P=1; every action kind on first/last host, OS None and last OS; 8 mode combinations; steps any int >= 0, limit None or any int > 0",
-              thorough="adds [1,1,1],[1,2]; every target and name")
+              thorough="adds [1,1,1] and environments without a step limit")
 prefer = common.prefer
 MODES = list(itertools.product((False, True), (True, False), (True, False)))   # fully_obs, flat_actions, flat_obs
 
@@ -36,7 +36,9 @@ MODES = list(itertools.product((False, True), (True, False), (True, False)))   #
 def queries(tier, seed=0):
     qs = []
     kinds = [k for k in scen.KINDS if k != 'noop']
-    for q in dyn.base_queries(tier, level='step', kinds=kinds):
+    # thorough = the quick grid plus the three-subnet shape and environments without a step limit
+    # (every target / name of the larger shapes x 8 environments per path does not fit the budget)
+    for q in dyn.base_queries('quick', level='step', kinds=kinds):
         if tier == 'quick' and len(q['shape']['sizes']) > 2:
             continue
         q = dict(q, shape=dict(q['shape'], P=2))
